@@ -592,6 +592,8 @@ func (w *World) loadAddr(a Addr, st *State, resT types.Type) Term {
 			}
 		} else if isSlice(t) {
 			w.assume(fmt.Sprintf("(or (= (sbase %s) 0) (select %s (sbase %s)))", v.S, al.S, v.S))
+		} else if _, isMap := t.Underlying().(*types.Map); isMap {
+			w.assume(fmt.Sprintf("(or (= %s 0) (select %s %s))", v.S, al.S, v.S))
 		}
 	}
 	return v
@@ -1113,6 +1115,21 @@ func (g *Gen) instr(in ssa.Instruction, st *State) {
 		st.defers = append(st.defers, v)
 	case *ssa.Go:
 		g.note("go statement not modelled")
+		// `go func(){...}()` on a literal that has a contract: its preconditions are obligations at the go statement (what
+		// the goroutine relies on must hold when it is started); its effects are not modelled (a scratch state takes them)
+		if mc, ok := v.Call.Value.(*ssa.MakeClosure); ok {
+			scratch := st.clone()
+			g.callLiteralByContract(mc, v.Call.Args, nil, scratch, v.Pos())
+		} else if callee, ok := v.Call.Value.(*ssa.Function); ok {
+			if ctr := g.lookupContract(callee); ctr != nil && !ctr.Pure {
+				scratch := st.clone()
+				var ats []Term
+				for _, a := range v.Call.Args {
+					ats = append(ats, g.val(a, st))
+				}
+				g.callWithContract(callee, ctr, ats, nil, scratch, v.Pos())
+			}
+		}
 		if ghostInts["spawned"] {
 			// built-in ghost counter (when the unit declares `ghost spawned int`): the number of goroutines launched;
 			// what they do is not modelled, that they were started is
@@ -1133,6 +1150,10 @@ func (g *Gen) instr(in ssa.Instruction, st *State) {
 		r := w.fresh("o", "Int")
 		if mm, isMap := v.(*ssa.MakeMap); isMap {
 			w.assume(fmt.Sprintf("(> %s 0)", r.S))
+			// a new map is not in the allocation set (maps read from the heap or passed in are)
+			al := w.heapArrSort(st, "alloc", "(Array Int Bool)")
+			w.assume(fmt.Sprintf("(not (select %s %s))", al.S, r.S))
+			st.heap["alloc"] = T(fmt.Sprintf("(store %s %s true)", al.S, r.S), al.Sort)
 			// a new map differs from every map value of that type computed so far (prototype stand-in for the allocation set)
 			for ov, ot := range g.vals {
 				if ov != nil && ov != v.(ssa.Value) && types.Identical(ov.Type().Underlying(), mm.Type().Underlying()) && ot.Sort == "Int" {
@@ -1898,7 +1919,9 @@ func heapKeyMatches(key string, spec string) bool {
 	parts := strings.SplitN(spec, ".", 2)
 	if ts, i, ok := fldParts(key); ok {
 		if !(strings.HasSuffix(ts, "."+parts[0]) || ts == parts[0]) {
-			return false
+			// "T" without a field also names the by-value struct fields inside T (they live in heaps of their own type,
+			// which may be anonymous: staticUpstream.HealthCheck)
+			return len(parts) == 1 && interiorOf(ts, parts[0], 0)
 		}
 		if len(parts) == 1 {
 			return true
@@ -1949,14 +1972,21 @@ func (g *Gen) callWithContract(callee *ssa.Function, ctr *Contract, args []Term,
 		g.recovered = true
 	}
 	// havoc modifies
+	pointeeOnly := map[string]bool{}
 	for _, m := range ctr.Modifies {
 		if strings.HasPrefix(m, "ptr:") {
 			g.havocPointees(callArgsOf(res), st, strings.TrimPrefix(m, "ptr:"))
+			// `ptr:T` = "writes through the *T pointers it is handed". When every argument that can reach a *T is such a
+			// pointer itself (or the varargs array of such pointers), exactly those cells were havocked above and every
+			// other cell of that heap keeps its value; otherwise the whole heap is havocked.
+			if g.onlyDirectPointers(callArgsOf(res), strings.TrimPrefix(m, "ptr:")) {
+				pointeeOnly[m] = true
+			}
 		}
 	}
 	for k, a := range st.heap {
 		for _, m := range ctr.Modifies {
-			if heapKeyMatches(k, m) {
+			if heapKeyMatches(k, m) && !pointeeOnly[m] {
 				st.heap[k] = w.fresh("Hm", a.Sort)
 			}
 		}
@@ -2654,7 +2684,7 @@ func (g *Gen) checkFrame(ret *ssa.Return, st *State) {
 			}
 			sel = selName
 			g.addObNoAssume("frame", name, pos, st, fmt.Sprintf("(forall ((s Slice) (j Int)) (=> (select %s (sbase s)) (= (%s %s s j) (%s %s s j))))", alloc0.S, sel, h1.S, sel, h0.S))
-		case strings.HasPrefix(k, "ptr:"):
+		case strings.HasPrefix(k, "ptr:"), strings.HasPrefix(k, "MV:"), strings.HasPrefix(k, "MD:"):
 			if matched {
 				continue
 			}
@@ -2704,4 +2734,110 @@ func (w *World) itypeFn() string {
 		w.decls = append(w.decls, "(declare-fun itype (Int) Int)")
 	}
 	return "itype"
+}
+
+// onlyDirectPointers: every call argument whose type can reach a *T (T given as a type string) is a *T whose target
+// havocPointees resolves (local, field, element) or a varargs array of such pointers.
+func (g *Gen) onlyDirectPointers(args []ssa.Value, elem string) bool {
+	if len(args) == 0 {
+		return false
+	}
+	var reaches func(t types.Type, depth int) bool
+	reaches = func(t types.Type, depth int) bool {
+		if depth > 8 {
+			return true // give up: assume it can
+		}
+		switch u := t.Underlying().(type) {
+		case *types.Pointer:
+			if types.TypeString(u.Elem(), nil) == elem {
+				return true
+			}
+			return reaches(u.Elem(), depth+1)
+		case *types.Slice:
+			return reaches(u.Elem(), depth+1)
+		case *types.Array:
+			return reaches(u.Elem(), depth+1)
+		case *types.Map:
+			return reaches(u.Elem(), depth+1)
+		case *types.Struct:
+			for i := 0; i < u.NumFields(); i++ {
+				if reaches(u.Field(i).Type(), depth+1) {
+					return true
+				}
+			}
+			return false
+		case *types.Interface, *types.Signature, *types.Chan:
+			return true
+		}
+		return false
+	}
+	resolvable := func(a ssa.Value) bool {
+		switch x := a.(type) {
+		case *ssa.Alloc:
+			return g.escaping[x]
+		case *ssa.FieldAddr, *ssa.IndexAddr:
+			ad, ok := g.addrs[a]
+			return ok && ad.kind != "unknown"
+		}
+		return false
+	}
+	for i, a := range args {
+		if !reaches(a.Type(), 0) {
+			continue
+		}
+		if pt, ok := a.Type().Underlying().(*types.Pointer); ok && types.TypeString(pt.Elem(), nil) == elem {
+			if resolvable(a) {
+				continue
+			}
+			return false
+		}
+		// the receiver of a method whose struct has no *T inside was filtered by reaches; a varargs array of *T:
+		if sl, ok := a.(*ssa.Slice); ok && i == len(args)-1 {
+			if al, ok := sl.X.(*ssa.Alloc); ok {
+				okAll := true
+				for _, r := range *al.Referrers() {
+					if ia, ok := r.(*ssa.IndexAddr); ok {
+						for _, r2 := range *ia.Referrers() {
+							if s, ok := r2.(*ssa.Store); ok && s.Addr == ia && !resolvable(s.Val) {
+								okAll = false
+							}
+						}
+					}
+				}
+				if okAll {
+					continue
+				}
+			}
+		}
+		return false
+	}
+	return true
+}
+
+// interiorOf: the struct type with type string ts occurs as a by-value field (transitively) of a registered struct named name.
+func interiorOf(ts, name string, depth int) bool {
+	for k, st := range structRegistry {
+		if !(strings.HasSuffix(k, "."+name) || k == name) || st == nil {
+			continue
+		}
+		var walk func(s *types.Struct, d int) bool
+		walk = func(s *types.Struct, d int) bool {
+			if d > 3 {
+				return false
+			}
+			for i := 0; i < s.NumFields(); i++ {
+				ft := s.Field(i).Type()
+				if fs, ok := ft.Underlying().(*types.Struct); ok {
+					if types.TypeString(ft, nil) == ts || walk(fs, d+1) {
+						return true
+					}
+				}
+			}
+			return false
+		}
+		if walk(st, 0) {
+			return true
+		}
+	}
+	return false
 }
